@@ -181,7 +181,15 @@ pub fn style_strategy() -> BoxedStrategy<CueStyle> {
 
 pub fn spec_strategy(max_tracks: usize, max_indices: usize) -> BoxedStrategy<CueSpec> {
     (
-        proptest::option::weighted(0.5, "[0-9]{13}"),
+        proptest::option::weighted(
+            0.5,
+            prop_oneof![
+                6 => "[0-9]{13}",
+                1 => Just("0000000000000".to_string()),
+                1 => Just("9999999999999".to_string()),
+                1 => "0{1,12}[0-9]{12}".prop_map(|t| t[t.len() - 13..].to_string()),
+            ],
+        ),
         prop_oneof![4 => 1usize..=5, 3 => 3usize..=20, 1 => 1usize..=max_tracks, 1 => Just(max_tracks)],
         1u32..100_000,
         style_strategy(),
